@@ -79,8 +79,7 @@ def _ret_names(eng, p):
     def get(i):
         e = f(zint(i))
         key = ("ldax", base, z3.simplify(zint(i)).sexpr())
-        if key not in eng.ghost:
-            eng.ghost[key] = True
+        if eng.pc.need_axioms(key):
             eng.assume(z3.And(z3.Length(e) > 0, z3.Not(z3.Contains(e, z3.StringVal("/"))), z3.Not(z3.Contains(e, z3.StringVal("\0"))),
                               e != z3.StringVal("."), e != z3.StringVal("..")))
         return VStr(e, True)
